@@ -735,6 +735,12 @@ def _next_generic(m, st, callee, args, t):
         return _ri_next(m, st, callee, [ref], t) if all(isinstance(x, I) for x in it.fields) else None
     if isinstance(it, Adt) and it.ty.startswith("core::ops::range::Range") and len(it.fields) == 2:
         return _r_next(m, st, callee, [ref], t)
+    if isinstance(it, Opq) and it.kind == "peekable" and isinstance(ref, Ref):
+        inner, peeked = it.data
+        if peeked is not None:
+            m.store(st, ref.loc, Opq("peekable", (inner, None)))
+            return peeked
+        return _next_generic(m, st, callee, [Ref(m._sub(ref.loc, ("opq", 0)))], t)
     if isinstance(it, Opq) and it.kind == "fsplit":
         return _split_next(m, st, callee, args, t)
     if isinstance(it, Opq) and it.kind == "filter":
@@ -1075,6 +1081,14 @@ def _filter_next(m, st, callee, args, t):
     return None
 
 
+@model("core::str::<impl str>::strip_suffix")
+def _strip_suffix(m, st, callee, args, t):
+    h = getattr(m.world, "str_strip_suffix", None)
+    if h is None:
+        return None
+    return h(m, st, _content(m, st, args[0]), args[1])
+
+
 @model("core::str::<impl str>::strip_prefix")
 def _strip_prefix(m, st, callee, args, t):
     h = getattr(m.world, "str_strip_prefix", None)
@@ -1117,7 +1131,7 @@ def _slice_concat(m, st, callee, args, t):
 
 
 # ---- internal iteration: interpreted as the loop around next() it stands for (pv/synth.py)
-ITER_KINDS = ("chars", "char_indices", "enumerate", "skip", "rev", "map", "lcur", "slice-iter", "fsplit", "filter", "skip_while")
+ITER_KINDS = ("chars", "char_indices", "enumerate", "skip", "rev", "map", "lcur", "slice-iter", "fsplit", "filter", "skip_while", "peekable")
 
 
 def _known_iter(m, st, v):
@@ -1166,6 +1180,44 @@ def _collect(m, st, callee, args, t):
     if dty == "alloc::string::String" and _char_source(m, st, args[0]):
         return (INLINE, m.prog.bodies["pv::synth::string_from_chars"], [args[0]], None)
     return None
+
+
+@model("core::iter::traits::iterator::Iterator::peekable")
+def _peekable(m, st, callee, args, t):
+    if not _known_iter(m, st, args[0]):
+        return None
+    return Opq("peekable", (args[0], None))
+
+
+@model("core::iter::adapters::peekable::Peekable::<I>::peek")
+def _peek(m, st, callee, args, t):
+    """Peekable::peek: the next element is fetched from the inner iterator once and kept."""
+    ref, it = _innermost_ref(m, st, args[0])
+    if not (isinstance(it, Opq) and it.kind == "peekable" and isinstance(ref, Ref)):
+        return None
+
+    def answer(mm, ss):
+        cur = mm.load(ss, ref.loc)
+        o = cur.data[1]
+        if isinstance(o, Adt) and o.variant == 0:
+            return none()
+        return some(Ref(mm._sub(mm._sub(mm._sub(ref.loc, ("opq", 1)), ("as", 1)), 0)))
+
+    if it.data[1] is not None:
+        return answer(m, st)
+
+    def finish(mm, ss, r):
+        cur = mm.load(ss, ref.loc)
+        mm.store(ss, ref.loc, Opq("peekable", (cur.data[0], r)))
+        return answer(mm, ss)
+
+    r = _next_generic(m, st, callee, [Ref(m._sub(ref.loc, ("opq", 0)))], t)
+    if r is None or isinstance(r, Outcome):
+        return r
+    if isinstance(r, tuple) and r and r[0] is INLINE:
+        post0 = r[3]
+        return (INLINE, r[1], r[2], lambda mm, ss, v: finish(mm, ss, post0(mm, ss, v) if post0 else v))
+    return finish(m, st, r)
 
 
 @model("core::iter::traits::iterator::Iterator::flat_map")
